@@ -70,7 +70,7 @@ static thrd_ret_t THREAD_CALL_CONV parallel_thread_run(void *rid_arg)
 			process_msg();
 
 		simtime_t current_gvt = gvt_phase_run();
-		if(unlikely(current_gvt != 0.0)) {
+		if(unlikely(current_gvt >= 0.0)) {
 			VERIF_TRACE(VK_GVT, verif_dbits(current_gvt), 0, 0);
 			termination_on_gvt(current_gvt);
 			auto_ckpt_on_gvt();
